@@ -338,6 +338,12 @@ class Link:
                     self.run.phase("joined", self.att)
                     self.run.env.call_later(LIFETIME, self.end_of_life)
             elif msg[0] == 6:    # GOODBYE
+                if self.run.cfg.get("goodbye") == "drop" and self.run.stopped is not None:
+                    # the router does not answer the GOODBYE that stop() caused: the transport is
+                    # lost instead (unclean) before any reply
+                    self.goodbye_sent = True
+                    self.drop(False)
+                    return
                 if not self.goodbye_sent:
                     self.goodbye_sent = True
                     self.send_wamp([6, {}, "wamp.close.goodbye_and_out"])
